@@ -144,7 +144,7 @@ def trappable(e):
 # ----------------------------------------------------------------------------------------------
 # building the real pipeline from a case
 class CountingSeq(list):
-    """a caller-owned sequence (list subclass); kept to show that X/Y may be any Sequence"""
+    """a caller-owned Sequence that is not a plain list"""
     pass
 
 
@@ -384,7 +384,7 @@ def partial_read(env, k):
     return out, exhausted
 
 
-def run_history(case, tmp, intern=None):
+def run_history(case, tmp):
     """-> (outcomes, snap_before, snap_after).  outcomes[i] describes what op i observed."""
     from coba.environments import Environments
     envs, watch = build(case, tmp)
@@ -731,6 +731,13 @@ def shortcuts():
             out.append(n)
         SHORTCUTS = sorted(out)
     return SHORTCUTS
+
+
+HANDLED_SHORTCUTS = {"binary", "sparse", "dense", "shuffle", "sort", "riffle", "cycle", "params", "take", "slice", "reservoir", "scale", "impute",
+                     "where", "noise", "flatten", "grounded", "repr", "batch", "unbatch", "chunk", "cache", "materialize", "logged", "ope_rewards",
+                     "save", "filter"}
+HANDLED_FILTERS = {"Identity", "Mutable", "Harden", "Chunk", "EmptyCheck", "Unbatch", "Flatten", "Finalize", "BatchSafe", "Cache", "Take", "Shuffle",
+                   "Slice", "Reservoir", "Params", "OpeRewards"}      # reached through .filter(); the others through their shortcut
 
 
 def numeric_ctx(sh):
@@ -1164,33 +1171,6 @@ def derive_always_fails(case, i, err, tmp):
     return bool(outs) and outs[-1].get("err") == err
 
 
-def abandoned_before_pickle(case):
-    """is there a pickle step on an object whose latest read (on it or on an object it was derived from) was abandoned?"""
-    parent = {0: None}
-    n = 1
-    last = {}            # object -> kind of the latest read
-    for h in case["hist"]:
-        j = h.get("on", 0)
-        if h["op"] == "partial" and h["k"] > 0:
-            last[j] = "partial"
-        elif h["op"] == "full":
-            last[j] = "full"
-        elif h["op"] in DERIVE:
-            if h["op"] == "pickle":
-                a = j
-                while a is not None:
-                    if last.get(a) == "partial":
-                        return True
-                    if last.get(a) == "full":
-                        break
-                    a = parent.get(a)
-            if h["op"] in ("materialize", "save"):
-                last[j] = "full"
-            parent[n] = j
-            n += 1
-    return False
-
-
 def diffkind(got, ref):
     if len(got) == 0 and len(ref) > 0:
         return "empty"
@@ -1443,7 +1423,10 @@ class C04(Property):
     assumptions = ["openml and optional-package sources/filters (pandas, torch, vowpalwabbit) excluded",
                    "interleaved reads of two pipelines that share an unfinished Cache are treated like concurrent reads (outside the property)",
                    "time-seeded filters (seed None) excluded"]
-    partial_theorems = {}
+    partial_theorems = {
+        "shuffle_logged_stable_partial": "as-is logged Shuffle (before e4fe683) is stable only while no read session on it is abandoned; "
+                                         "shuffle_abandon_counterexample shows the hypothesis is necessary; the repaired Shuffle is a pure stage and is covered by reread at full strength",
+    }
 
     # ---- generation
     def generate(self, rng, tier):
@@ -1563,7 +1546,11 @@ class C04(Property):
         if not (asis or fixed):
             fails.append(F("A", "the witness of shuffle_abandon_counterexample behaves neither as the as-is model nor as the repaired model: orders %s / %s, seed %r"
                            % ([base.index(x) for x in r1], [base.index(x) for x in r3], seed), "A:witness-shuffle"))
-        return {"fails": fails, "nontrivial": True, "tags": ["witness:" + ("asis" if asis else "fixed" if fixed else "neither")], "impl": {"seed": seed}}
+        tags = ["witness:" + ("asis" if asis else "fixed" if fixed else "neither")]
+        # breadth report: shortcut methods / filter classes of the tree under test the generator has no arguments for
+        tags += ["not-covered:shortcut:" + n for n in shortcuts() if n not in HANDLED_SHORTCUTS]
+        tags += ["covered:shortcuts:%d" % len([n for n in shortcuts() if n in HANDLED_SHORTCUTS])]
+        return {"fails": fails, "nontrivial": True, "tags": tags, "impl": {"seed": seed}}
 
     def _evaluate(self, case, driver, tmp):
         if "witness" in case:
